@@ -3,7 +3,7 @@ Proof: Props/C02.lean (totality / contract of Model.xml2wbxml for every Expat ru
 tuple; Expat is a parameter). Tie: X2W correspondence (byte-exact WBXML, all option tuples) under
 ASan/UBSan/LSan with the caller's input in a read-only mapping, output-contract oracle, ill-formed
 and unknown-language streams, NULL parameter block, nesting ladder under an 8 MiB stack."""
-import os, random, subprocess
+import itertools, os, random, subprocess
 import common, corr, xmlgen, xcorr
 
 
@@ -55,7 +55,36 @@ def run(res, args):
             xs.append(x)
     for depth in ([50, 300, 1000] if quick else [50, 300, 1000, 5000]):
         xs.append(deep_xml(depth))
+    # sources in other declared encodings
+    for x in rng.sample(docs, 12):
+        for enc in ('ISO-8859-1', 'UTF-16', 'US-ASCII'):
+            y = xmlgen.transcode(x, enc)
+            if y is not None:
+                xs.append(y); dist['corpus'] += 1
+    # documents with embedded sub-documents under every option tuple (nested encoders have options of their own)
+    emb_opts = {}
+    for x in [x for x in docs if b'<DevInf' in x or b'<MgmtTree' in x]:
+        for o in itertools.product([0, 3], [0, 1], [0, 1], [0, 1]):
+            emb_opts[len(xs)] = f'{o[0]} {o[1]} {o[2]} {o[3]}'
+            xs.append(x); dist['corpus'] += 1
+    # inputs whose length is a multiple of common block sizes, well-formed and ill-formed only at the very end
+    blk = []
+    for base in (b'<si><indication href="http://a/">x</indication></si>', docs[0]):
+        for size in (512, 1000, 1024, 2048, 4096, 8192, 12288, 16384, 65536):
+            for delta in (-1, 0, 1):
+                n = size + delta
+                if n <= len(base) + 8:
+                    continue
+                pad = b'<!--' + b'p' * (n - len(base) - 7) + b'-->'
+                good = base + pad
+                blk.append(good)                                  # well-formed, exact length
+                blk.append((b'<!--' + b'p' * (n - len(base) - 7 + 1) + b'-->' + base)[:n])   # same length, cut inside the last tag
+                blk.append((base[:base.rfind(b'</')] + b'<!--' + b'p' * n)[:n])              # unclosed root / comment at end of input
+    for x in blk:
+        xs.append(x); dist['hostile'] += 1
     opts = [f'{rng.choice([0, 1, 2, 3])} {rng.choice([0, 1])} {rng.choice([0, 1])} {rng.choice([0, 1])}' for _ in xs]
+    for k, o in emb_opts.items():
+        opts[k] = o
     lines = [f'X2W {o} {x.hex()}' for o, x in zip(opts, xs)]
     nulls = [f'X2WN 0 {x.hex()}' for x in docs[:40] + hostile[:6]]
     impl, inc_i = corr.run_lines(h, lines + nulls, env=b.env(), timeout=900)
